@@ -153,6 +153,31 @@ public:
             p.set_knob("t" + std::to_string(i) + "cfg", timer_cfg_word(mode, r.chance(1, 12), r.chance(1, 2), false));
             p.set_knob("t" + std::to_string(i) + "start", start);
         }
+        if (r.chance(1, 6)) {
+            // coincidences: both timers running in the same mode, expiring in the same cycle or one or two cycles apart, their
+            // requests routed to the same place
+            int mode = (int)r.below(2);
+            u32 start = (u32)r.range(4, 120);
+            u32 delta = (u32)r.below(3);
+            bool mu = r.chance(1, 2);
+            p.set_knob("t0cfg", timer_cfg_word(mode, false, mu, false));
+            p.set_knob("t1cfg", timer_cfg_word(mode, false, mu, false));
+            p.set_knob("t0start", start);
+            p.set_knob("t1start", r.chance(1, 2) ? start + delta : (start > delta ? start - delta : start));
+            const u16 both = 1 << 9 | 1 << 10;
+            for (int i = 0; i < 3; ++i)
+                en[i] &= (u16)~both;
+            env &= (u16)~both;
+            int where = (int)r.below(4);
+            if (where < 3)
+                en[where] |= both;
+            else
+                env |= both;
+            p.set_knob("en0", en[0]);
+            p.set_knob("en1", en[1]);
+            p.set_knob("en2", en[2]);
+            p.set_knob("env", env);
+        }
         bool bt = r.chance(1, 2);
         p.set_knob("bt_en", bt);
         p.set_knob("bt_words", bt ? (s64)r.below(19) : (s64)(r.chance(1, 4) ? r.below(5) : 0));
@@ -179,6 +204,8 @@ public:
                 act |= HA_IDLE_INSIDE;
             if (r.chance(1, 8))
                 act |= HA_EINT;
+            if (r.chance(1, 8))
+                act |= HA_EINT_FIRST;
             if (r.chance(1, 6))
                 act |= HA_EVENT;
             if (r.chance(1, 8))
